@@ -1004,7 +1004,8 @@ fn sweep_cases(t: &Target, chars: &[Ch], thorough: bool, already: &HashSet<Strin
 /// Characters whose bytes are "dangerous" somewhere (quote, backslash, pipe, lowest/highest trail bytes,
 /// bytes equal to a mask byte, bytes next to 0x00/0x80), used for the exhaustive ordered-pair family.
 fn specials(chars: &[Ch]) -> Vec<Ch> {
-    let single = [0x01u8, 0x09, 0x0A, 0x0D, 0x1F, 0x20, 0x22, 0x5C, 0x7C, 0x77, 0x7E, 0x7F, 0x80, 0xA1, 0xAA, 0xB1, 0xDD, 0xDF];
+    // (0x30 '0', 0x6E 'n', 0x72 'r': the letters of the escape sequences, dangerous right after a backslash character)
+    let single = [0x01u8, 0x09, 0x0A, 0x0D, 0x1F, 0x20, 0x22, 0x30, 0x5C, 0x6E, 0x72, 0x7C, 0x77, 0x7E, 0x7F, 0x80, 0xA1, 0xAA, 0xB1, 0xDD, 0xDF];
     let trail = [0x40u8, 0x5C, 0x77, 0x7C, 0x7E, 0x80, 0xFC];
     chars.iter().filter(|ch| match ch.bytes.len() {
         1 => single.contains(&ch.bytes[0]),
